@@ -443,6 +443,10 @@ func buildProgram(run, prog string, results ...bigslice.Slice) bigslice.Slice {
 			out = e.ref(f[1])
 			continue
 		}
+		if f[0] == "EXCLUSIVE" {
+			// the program is run through an exclusive Func (its own cluster of machines): chosen by runProgram
+			continue
+		}
 		if f[0] == "FAULT" {
 			faults.LoadOrStore(run, &faultSpec{node: f[1], mode: f[2], k: int64(atoi(f[3])), once: f[4] == "once"})
 			continue
@@ -465,6 +469,12 @@ var (
 	progFunc2 = bigslice.Func(func(run, prog string, r0, r1 bigslice.Slice) bigslice.Slice {
 		return buildProgram(run, prog, r0, r1)
 	})
+	// the same as exclusive Funcs: each invocation gets machines of its own (bigmachine executor)
+	progFunc0x = bigslice.Func(func(run, prog string) bigslice.Slice { return buildProgram(run, prog) }).Exclusive()
+	progFunc1x = bigslice.Func(func(run, prog string, r0 bigslice.Slice) bigslice.Slice { return buildProgram(run, prog, r0) }).Exclusive()
+	progFunc2x = bigslice.Func(func(run, prog string, r0, r1 bigslice.Slice) bigslice.Slice {
+		return buildProgram(run, prog, r0, r1)
+	}).Exclusive()
 )
 
 func sortedKeys(m map[string][]string) []string {
